@@ -476,6 +476,24 @@ func (t *tr) stmts(list []ast.Stmt, cont string, wrap func(string) string) (stri
 		}
 		return wrap(e), nil
 	case *ast.AssignStmt:
+		// `_, ok := SET[key]` over a package-level set of strings: ok is "key is a member"
+		if len(x.Lhs) == 2 && len(x.Rhs) == 1 && x.Tok == token.DEFINE && exprString(x.Lhs[0]) == "_" {
+			if ie, isIdx := x.Rhs[0].(*ast.IndexExpr); isIdx {
+				if sid, isID := ie.X.(*ast.Ident); isID {
+					if keys, isSet := t.stringSetKeys(sid.Name); isSet {
+						ix, e2 := t.expr(ie.Index)
+						if e2 != nil {
+							return "", e2
+						}
+						r, err := restT()
+						if err != nil {
+							return "", err
+						}
+						return "(let " + leanIdent(exprString(x.Lhs[1])) + " := (([" + strings.Join(keys, ", ") + "] : List Str).contains " + ix + "); " + r + ")", nil
+					}
+				}
+			}
+		}
 		if len(x.Lhs) != 1 || len(x.Rhs) != 1 {
 			return "", t.errf(s, "multi-assignment")
 		}
